@@ -57,6 +57,7 @@ func c13Scenarios() []c13Scenario {
 		{"upload", true, []wire.Req{wire.P(wire.OpCreate, "/up/new.bin"), wire.Write(tree.Content(1, 70000)), wire.Write(tree.Content(2, 10)), wire.P(wire.OpCreate, "/up/second.bin"), wire.Write(tree.Content(3, 3000)), wire.P(wire.OpMkdir, "/up/d"), wire.P(wire.OpDelete, "/up/second.bin"), wire.P(wire.OpRmdir, "/up/d"), wire.P(wire.OpCreate, "/up/old.bin"), wire.Write(tree.Content(4, 100))}},
 		{"opendir-of-files", false, []wire.Req{wire.P(wire.OpOpenDir, "/file.bin"), wire.Bare(wire.OpRDE), wire.P(wire.OpOpenDir, "/dir"), wire.P(wire.OpOpenDir, "/big.bin"), wire.Bare(wire.OpReadDir), wire.P(wire.OpOpenDir, "/PS3ISO/enc.iso"), wire.P(wire.OpOpenDir, "/nope"), wire.P(wire.OpOpenDir, "/links/lfile")}},
 		{"virtual-as-directory", false, []wire.Req{wire.P(wire.OpOpenDir, "/***DVD***/dir/sub"), wire.Bare(wire.OpRDE), wire.Bare(wire.OpRDE2), wire.Bare(wire.OpReadDir), wire.P(wire.OpOpenDir, "/dir"), wire.P(wire.OpOpenDir, "/***DVD***/dir"), wire.Bare(wire.OpRDE), wire.Bare(wire.OpRDE), wire.P(wire.OpOpenDir, "/***PS3***/game/PS3_GAME"), wire.Bare(wire.OpRDE2), wire.P(wire.OpStat, "/dir")}},
+		{"open-of-directories", false, []wire.Req{wire.P(wire.OpOpen, "/dir"), wire.P(wire.OpOpen, "/dir/sub"), wire.P(wire.OpOpen, "/"), wire.P(wire.OpOpen, "/file.bin"), wire.Read(100, 0), wire.P(wire.OpOpen, "/links"), wire.P(wire.OpOpen, "/CLOSEFILE"), wire.P(wire.OpOpen, "/emptydir")}},
 		{"psx-cd-image", false, []wire.Req{wire.P(wire.OpOpen, "/cd/game2448.bin"), wire.CD(0, 2), wire.CD(17, 3), wire.Read(100, 24+16*2448), wire.P(wire.OpOpen, "/cd/game2336.bin"), wire.CD(5, 2), wire.CD(800, 1)}},
 		{"mixed-handles", false, []wire.Req{wire.P(wire.OpOpenDir, "/dir"), wire.P(wire.OpOpen, "/file.bin"), wire.Bare(wire.OpRDE), wire.Read(100, 0), wire.P(wire.OpOpen, "/***DVD***/dir"), wire.P(wire.OpOpenDir, "/links"), wire.Read(4096, 0), wire.P(wire.OpOpen, "/PS3ISO/enc.iso"), wire.Bare(wire.OpReadDir), wire.Crit(100, 5000)}},
 	}
@@ -402,6 +403,14 @@ func C13(e *Env) {
 			if opk == "read" {
 				for _, k := range []int{1, 2, 4, 5, 7, 15, 511, 2047} {
 					plans = append(plans, plan{[]spyfs.Fault{{Index: i, Kind: spyfs.FShort, K: k}}, fmt.Sprintf("short read (%d bytes) at op #%d", k, i), "short", opk})
+				}
+			}
+			// a member file of a generated image that has become shorter since the image was laid out:
+			// k bytes and EOF from its positional read (only there: for the probes of image
+			// kind and sector size "the file ends here" is information, not a fault)
+			if opk == "readat" && strings.Contains(sc.Name, "generated-image") {
+				for _, k := range []int{1, 511, 2047} {
+					plans = append(plans, plan{[]spyfs.Fault{{Index: i, Kind: spyfs.FShort, K: k}}, fmt.Sprintf("short positional read (%d bytes, then EOF) at op #%d", k, i), "short", opk})
 				}
 			}
 			// ENOENT is injected only where it cannot be mistaken for a legitimate "does not exist"
